@@ -138,6 +138,26 @@ fn c16_corpus(tier: Tier) -> Vec<(String, Spec)> {
     // definitions with disambiguation errors (the error list has its own seam)
     v.push(("conflict2".into(), Spec::new(true, vec![vcore::spec::Pat::regex("a+"), vcore::spec::Pat::regex("[a-c]+").prio(2), vcore::spec::Pat::regex("b+"), vcore::spec::Pat::regex("[b-d]+").prio(2)])));
     v.push(("conflict3".into(), Spec::new(true, vec![vcore::spec::Pat::regex("ab"), vcore::spec::Pat::regex("a[b]"), vcore::spec::Pat::regex("[a]b"), vcore::spec::Pat::regex("cd"), vcore::spec::Pat::regex("c[d]")])));
+    // MANY diagnostics of one kind (more than any plausible cap or batch size): whatever is kept,
+    // dropped or summarised must not depend on the order in which the states were visited
+    for n in [17usize, 33] {
+        let mut pats = vec![];
+        for i in 0..n {
+            pats.push(vcore::spec::Pat::token(&format!("k{i:02}")));
+            pats.push(vcore::spec::Pat::regex(&format!("k{i:02}")));
+        }
+        v.push((format!("conflict_many{n}"), Spec::new(true, pats)));
+    }
+    {
+        // conflicts spread over states of one shared loop (several conflicting states per pair)
+        let mut pats = vec![];
+        for i in 0..20 {
+            let c = (b'a' + i as u8) as char;
+            pats.push(vcore::spec::Pat::regex(&format!("{c}[0-9]+")));
+            pats.push(vcore::spec::Pat::regex(&format!("{c}[0-9]+x?")));
+        }
+        v.push(("conflict_many_loops".into(), Spec::new(true, pats)));
+    }
     // definitions that are REJECTED: the diagnostics are part of the output too
     v.push(("undef_sub".into(), Spec::new(true, vec![vcore::spec::Pat::regex("(?&nope)x"), vcore::spec::Pat::regex("(?&a)(?&zz)")]).with_sub("a", "a").with_sub("b", "b").with_sub("c", "c").with_sub("d", "d")));
     v.push(("nullable_many".into(), Spec::new(true, vec![vcore::spec::Pat::regex("a*"), vcore::spec::Pat::regex("b?"), vcore::spec::Pat::regex("(c|)"), vcore::spec::Pat::skip("d*")])));
@@ -483,9 +503,20 @@ pub fn c18_cases() -> Vec<(String, Vec<String>)> {
     let items: Vec<(&str, &str)> = vec![
         ("skip", "skip \" +\""),
         ("skip", "skip(\"[\\t]+\", priority = 9)"),
+        // skip / error items carrying callbacks of every spelling: plain label, paths that start
+        // with `logos::` / `::logos::` / the renamed crate's path, closures that mention the crate -
+        // whatever another item (crate = ...) means for them, it must not depend on the order
+        ("skip", "skip(\" +\", logos::skip)"),
+        ("skip", "skip(\" +\", callback = ::logos::skip)"),
+        ("skip", "skip(\" +\", some::path::skip, priority = 3)"),
+        ("skip", "skip(\" +\", |lex| { let _ = lex; logos::Skip })"),
+        ("skip", "skip(\" +\", sk)"),
         ("extras", "extras = Ex"),
         ("error", "error = Er"),
         ("error", "error(Er, callback = ecb)"),
+        ("error", "error(Er, logos::ecb)"),
+        ("error", "error(logos::Er, callback = some::path::ecb)"),
+        ("error", "error(Er, |lex| { let _ = lex; logos::Er })"),
         ("utf8", "utf8 = false"),
         ("crate", "crate = some::path"),
         ("suba", "subpattern a = \"[0-9]\""),
